@@ -126,6 +126,8 @@ def npci_rt(d, dk, sk, mk, dlens, slens, paylens):
     y = N.NPDU()
     y.decode(PDU(want))
     check_fields(y, er, prio, dshape, sshape, hops, msg, vendor, payload, "field-restored")
+    if y.npduControl != want[1]:
+        raise Violation("field-restored", attr='npduControl', got=y.npduControl, want=want[1])
     d.reach()
 
 
@@ -208,7 +210,10 @@ def check_decode(d, data):
 
     # fixed point: what was decoded re-encodes to something that decodes identically
     p2 = PDU()
-    y.encode(p2)
+    try:
+        y.encode(p2)
+    except Exception as e:
+        raise Violation("decoded-not-encodable", exc=type(e).__name__, data=data)
     o2 = bytes(p2.pduData)
     y2 = N.NPDU()
     try:
@@ -260,27 +265,27 @@ MUT_ER_PRIO = {'apdu': (True, 1), 'std': (False, 3), 'vendor': (False, 0)}
 
 @meta(bounds="a valid frame laid out by the clause 6.2 reference from symbolic fields (expecting-reply / "
              "priority fixed per message kind: apdu (1, 1), std (0, 3), vendor (0, 0); destination kind / "
-             "source kind / message kind per instance, station address length picked from `lens`, "
+             "source kind / message kind per instance, station address lengths picked from `dlens` / `slens`, "
              "2-octet payload), then the octet at a symbolic position replaced by a symbolic value (ctl=any) or, "
              "ctl=flip, by a symbolic value everywhere except the control octet, which gets each of its 8 "
              "single-bit flips",
       outside="more than one replaced octet; insertions / deletions (truncation is covered by "
               "npci_decode_total on every short string)",
       stubs=[], assumes=[])
-def npci_mutated(d, dk, sk, mk, lens, ctl):
+def npci_mutated(d, dk, sk, mk, dlens, slens, ctl):
     # expecting-reply and priority of the valid frame are concrete: position 1 replaces the
     # whole control octet by a symbolic value anyway, and symbolic ones multiply every path
     # by 8 (the library's single-bit masks make the engine enumerate the control octet)
     er, prio = MUT_ER_PRIO[mk]
     dshape = sshape = hops = None
     if dk == 'station':
-        dshape = ('station',) + draw_station(d, 'd', d.pick(lens, 'dlen'))
+        dshape = ('station',) + draw_station(d, 'd', d.pick(dlens, 'dlen'))
     elif dk == 'rbcast':
         dshape = ('rbcast', d.int(1, 65534, 'dnet'))
     elif dk == 'global':
         dshape = ('global',)
     if sk == 'station':
-        sshape = draw_station(d, 's', d.pick(lens, 'slen'))
+        sshape = draw_station(d, 's', d.pick(slens, 'slen'))
     if dshape is not None:
         hops = d.int(0, 255, 'hops')
     msg = vendor = None
@@ -516,20 +521,21 @@ def instances(tier):
             for mk in ('apdu', 'net'):
                 both = dk == 'station' and sk == 'station'
                 if q:
-                    # quick: payload of 0 or 3 octets; with both addresses present the source
+                    # quick: payload of 0 or 4 octets; with both addresses present the source
                     # is 1 or 6 octets long (all four source lengths run with the other
                     # destination kinds)
-                    parts = [(lens, [1, 6] if both else lens, [0, 3])]
+                    parts = [(lens, [1, 6] if both else lens, [0, 4])]
                 elif both:
                     parts = [([n], lens, [0, 1, 2, 3, 4]) for n in lens]
                 else:
                     parts = [(lens, lens, [0, 1, 2, 3, 4])]
                 for dl, sl, pl in parts:
                     label = "%s,%s,%s" % (dk, sk, mk) + (",dlen=%d" % dl[0] if len(parts) > 1 else "")
+                    # (the larger budget also makes the pool start the biggest tree first)
                     out.append(Inst(npci_rt, dict(dk=dk, sk=sk, mk=mk, dlens=dl, slens=sl, paylens=pl),
-                                    budget=90 if q else 400, label=label))
-    # --- npci_decode_total
-    nmax = 5 if q else 8
+                                    budget=(120 if both else 90) if q else 600, label=label))
+    # --- npci_decode_total: every string of 0..nmax octets
+    nmax = 6 if q else 11
     for n in range(0, nmax + 1):
         if n < 5:
             out.append(Inst(npci_decode_total, dict(n=n), budget=90 if q else 300))
@@ -540,12 +546,30 @@ def instances(tier):
     for dk in ('none', 'station', 'rbcast', 'global'):
         for sk in ('none', 'station'):
             for mk in ('apdu', 'std', 'vendor'):
-                out.append(Inst(npci_mutated, dict(dk=dk, sk=sk, mk=mk, lens=[2] if q else [1, 2, 6],
-                                                   ctl='flip' if q else 'any'),
-                                budget=90 if q else 600, label="%s,%s,%s" % (dk, sk, mk)))
+                both = dk == 'station' and sk == 'station'
+                if q:
+                    parts = [[2]]
+                elif both:
+                    parts = [[1], [2], [6]]     # destination length; the source runs over all three
+                else:
+                    parts = [[1, 2, 6]]
+                for dl in parts:
+                    label = "%s,%s,%s" % (dk, sk, mk) + (",dlen=%d" % dl[0] if len(parts) > 1 else "")
+                    out.append(Inst(npci_mutated, dict(dk=dk, sk=sk, mk=mk, dlens=dl, slens=[2] if q else [1, 2, 6],
+                                                       ctl='flip' if q else 'any'),
+                                    budget=90 if q else 900, label=label))
     # --- netmsg_rt
     for mt in sorted(R.MESSAGE_TYPES):
         out.append(Inst(netmsg_rt, dict(mt=mt, lists=[0, 1, 2, 3] if q else [0, 1, 2, 3, 4, 5],
                                         nents=[0, 1, 2], infolens=[0, 1, 2]),
                         budget=90 if q else 400, label="mt=0x%02x" % mt))
+    if not q:
+        for mt in (0x01, 0x04, 0x05):
+            out.append(Inst(netmsg_rt, dict(mt=mt, lists=[20], nents=[], infolens=[]),
+                            budget=400, label="mt=0x%02x,20 networks" % mt))
+        for mt in (0x06, 0x07):
+            out.append(Inst(netmsg_rt, dict(mt=mt, lists=[], nents=[3, 5], infolens=[0, 3]),
+                            budget=400, label="mt=0x%02x,3 or 5 ports" % mt))
+            out.append(Inst(netmsg_rt, dict(mt=mt, lists=[], nents=[1], infolens=[255]),
+                            budget=400, label="mt=0x%02x,255 octets of port info" % mt))
     return out
